@@ -35,7 +35,7 @@ func init() {
 		Title:     "Acknowledged writes survive a process crash at any point",
 		Level:     "fault_enumeration",
 		Technique: "crash-point fault enumeration: child process killed (SIGKILL) at the k-th hit of every persistence-boundary hook site; acknowledgement log vs. reopened contents",
-		LevelText: "For generated histories (appends in/out of order incl. native histograms, rollbacks, deletes, Compact/CompactHead/CompactOOOHead/CompactStaleHead, CleanTombstones, m-mapping, clean restarts; 32 KiB WAL segments so rotation and checkpoints happen) a count run records how often each hook site (WAL page flush, segment removal, checkpoint mkdir/rename/removal, block tmp dir/rename, meta/tombstone file rename, block deletion rename/removal, head-chunk file removal, snapshot rename, WAL repair steps, commit/compaction/truncation protocol steps) is hit; then the history is re-run in a fresh child that kills itself at (site,k) for first/last/sampled k (thorough: every k ≤ 40) and at sampled global hit numbers. After each kill the directory is reopened under the same options: reopen must succeed, every acknowledged sample (minus acknowledged deletions) must be returned with an unaltered value, samples of the single in-flight operation may be present or not, nothing else may appear; then new appends, a clean close and a second reopen must preserve everything. Held on the enumerated crash points only.",
+		LevelText: "For generated histories (appends in/out of order incl. native histograms, rollbacks, deletes, Compact/CompactHead/CompactOOOHead/CompactStaleHead, CleanTombstones, m-mapping, clean restarts; 32 KiB WAL segments so rotation and checkpoints happen) a count run records how often each hook site (WAL page flush, segment removal, checkpoint mkdir/rename/removal, block tmp dir/rename, meta/tombstone file rename, block deletion rename/removal, head-chunk file removal, snapshot rename, WAL repair steps, commit/compaction/truncation protocol steps) is hit; then the history is re-run in a fresh child that kills itself at (site,k) for first/last/sampled k (thorough: every k ≤ 12 plus 6 sampled larger ones) and at sampled global hit numbers. After each kill the directory is reopened under the same options: reopen must succeed, every acknowledged sample (minus acknowledged deletions) must be returned with an unaltered value, samples of the single in-flight operation may be present or not, nothing else may appear; then new appends, a clean close and a second reopen must preserve everything. Held on the enumerated crash points only.",
 		LevelNote: "Process kill only: the page cache survives, so missing fsyncs are out of reach. Background goroutines make hit indexes slightly non-reproducible; a (site,k) that is not reached in the crash run is counted as not explored. Retention disabled. Known-finding classes of C01 (deletes vs. out-of-order data, WBL ref mapping, merged out-of-order blocks) are reported under their own kinds.",
 		DesignRef: "DESIGN.md §5 C03",
 		Rule:      "case = one generated history (15–45 ops) with all its selected crash points; each (site,k) kill + reopen + compare is one evaluation; non-trivial iff the child was really killed at the point, ≥1 commit had been acknowledged before and the reopened DB returned ≥1 sample; distinct by (history, site, k)",
@@ -271,11 +271,11 @@ func run(c *core.Case) {
 		h := hits[s]
 		ks := map[int64]bool{1: true, h: true}
 		if c.Tier == core.Thorough {
-			for k := int64(1); k <= h && k <= 40; k++ {
+			for k := int64(1); k <= h && k <= 12; k++ {
 				ks[k] = true
 			}
-			for i := 0; i < 6 && h > 40; i++ {
-				ks[41+r.Int64N(h-40)] = true
+			for i := 0; i < 6 && h > 12; i++ {
+				ks[13+r.Int64N(h-12)] = true
 			}
 		} else {
 			if h > 2 {
